@@ -351,6 +351,10 @@ class Spec:
             st["stop_ms_max"] = max(st["stop_ms_max"], int(res["stop_ms"]))
             if not res.get("watchdog") and not res.get("panic") == "1":
                 st["stops_returned"] += 1
+        if res.get("nnc_size") and int(res.get("auth_chk", 0) or 0) > 0:
+            st["nnc%s_runs" % res["nnc_size"]] += 1
+            stats.setdefault("auth_by_nnc", {}).setdefault(res["nnc_size"], collections.Counter()).update(
+                {k: int(res.get(k, 0) or 0) for k in ("auth_chk", "auth_ok", "auth_stale", "auth_respwrong", "auth_noncewrong")})
         if "ip_addrs" in res:
             st["ip_addrs_max"] = max(st["ip_addrs_max"], int(res["ip_addrs"]))
         if "stagger_stop_ms_max" in res:
@@ -487,10 +491,13 @@ class Spec:
                     tot[k_] += n_
         scen = {
             "a_digest_auth_shared_nonce_table": {
-                "what": "MHD_digest_auth_check3 + MHD_queue_auth_required_response3 from every worker / connection thread on ONE 8-slot "
+                "what": "MHD_digest_auth_check3 + MHD_queue_auth_required_response3 from every worker / connection thread on ONE nonce table of 8 or 64 slots "
                         "nonce table (nnc_lock); wrong and right answers; stale = slot taken over by another nonce (collision) or nc replay",
                 "checks": tot["auth_chk"], "ok": tot["auth_ok"], "stale_or_collision": tot["auth_stale"],
                 "response_wrong": tot["auth_respwrong"], "nonce_wrong": tot["auth_noncewrong"],
+                "by_nonce_table_size": {k: dict(v) for k, v in stats.get("auth_by_nnc", {}).items()},
+                "outcomes": "ok / response_wrong = the nonce was found in its slot and the nonce-counter bitmap was updated; stale / nonce_wrong = the "
+                            "slot holds another nonce (collision, taken over) or the nc was replayed",
                 "threads": "pool of 4 workers / one thread per connection, %d client threads" % clients},
             "b_shared_response_objects": {"callback_response_blocks": tot["cb_blocks"], "fd_response_replies": tot["fd"],
                                           "static_response": "every other reply", "body_checksum_mismatches": tot["body_mismatch"]},
